@@ -247,3 +247,353 @@ def homogeneous_degree_one(val, lam_atoms):
                 term = term * P.atom(a) ** e
         out = out + term
     return rational_close(out, val * s)[0]
+
+
+# ---------------------------------------------------------------------------------------------------------------- BladeStiff1D
+B1 = 'compmech/stiffener/bladestiff1d.py:BladeStiff1D.'
+
+
+def _with_plies(it, nply_tag='f'):
+    """extend the C01 contract of read_stack with what BladeStiff1D reads besides ABD: the plies (thickness t, in-plane
+    stiffness QL in laminate axes: symmetric 3x3, positive definite) and calc_equivalent_modulus (no effect on what is read)"""
+    import numpy as np
+    base = it.contracts['compmech.composite.laminate.read_stack']
+    facts = []
+
+    def read_stack(itp, args, kw):
+        lam = base(itp, args, kw)
+        plyts = lam.attrs['spec'].f['plyts']
+        plies = []
+        for k, t in enumerate(plyts):
+            ply = Obj(None)
+            ply.name = 'ply%d' % k
+            Q = np.empty((3, 3), dtype=object)
+            for i in range(3):
+                for j in range(3):
+                    Q[i, j] = real('QL%d%d_%s%d' % (min(i, j) + 1, max(i, j) + 1, nply_tag, k))
+            ply.attrs['t'] = t
+            ply.attrs['QL'] = Q
+            plies.append(ply)
+        lam.attrs['plies'] = plies
+        lam.attrs['calc_equivalent_modulus'] = lambda: None
+        return lam
+    it.contracts['compmech.composite.laminate.read_stack'] = read_stack
+
+
+def check_bladestiff1d(led):
+    """BladeStiff1D: what it passes to the beam kernels fk0f / fkG0f / fkMf, the placement of the base panel, and the positive
+    semi-definiteness of the weight matrices of the two energy functionals the kernels are proved to implement (c13_stiffk)."""
+    import z3
+    from .. import vc
+    for meth in ('__init__', '_rebuild', 'calc_k0', 'calc_kG0', 'calc_kM'):
+        led.function(B1 + meth)
+    led.bounded_item('BladeStiff1D: flange laminates of 1..3 plies, base of 1 ply (ply loop of _rebuild executed per count; everything else symbolic); '
+                     'definiteness of the flange stiffness weights decided for 1 and 2 plies')
+    for nply in (1, 2, 3):
+        for with_base in (False, True):
+            it, calls = py_panel.mk()
+            _with_plies(it)
+            mod = it.module('compmech.stiffener.bladestiff1d')
+            smod = it.module('compmech.stiffener.models.bladestiff1d_clt_donnell_bardell')
+            for fn, f in list(smod.g.items()):
+                if isinstance(f, pysym.Func) and fn in ('fk0f', 'fkG0f', 'fkMf'):
+                    it.contracts[f.qualname] = panelctx.kernel_contract(it, f, calls)
+            it.algebraic_minmax = True
+            holder = {}
+            tag = 'flange plies=%d,%s' % (nply, 'with base' if with_base else 'no base')
+
+            def run():
+                del calls[:]
+                bay = make_bay(it)
+                ys = real('ys')
+                p1 = skin(it, bay, 'skin1', P.const(0), ys)
+                p2 = skin(it, bay, 'skin2', ys, bay.attrs['b'])
+                bb, bf = real('bb'), real('bf')
+                it.facts[:] = [to_z3(bay.attrs['a']) > 0, to_z3(bay.attrs['b']) > 0, to_z3(bb) > 0, to_z3(bf) > 0]
+                matb = tuple(real(x + 'b') for x in MAT)
+                matf = tuple(real(x + 'f') for x in MAT)
+                tf = [real('tf%d' % k) for k in range(nply)]
+                s = it.call(mod.g['BladeStiff1D'], [], dict(bay=bay, mu=real('mu'), panel1=p1, panel2=p2, ys=ys, bb=bb, bf=bf,
+                                                           bstack=[real('thb')] if with_base else None, bplyts=[real('tb')] if with_base else None,
+                                                           blaminaprops=[matb] if with_base else None,
+                                                           fstack=[real('thf%d' % k) for k in range(nply)], fplyts=tf, flaminaprops=[matf] * nply))
+                s.attrs['Fx'] = real('Fx')
+                size, row0 = integer('size'), integer('row0')
+                out = {}
+                for which in ('k0', 'kG0', 'kM'):
+                    del calls[:]
+                    it.call(it.getattr(s, 'calc_' + which), [], dict(size=size, row0=row0, col0=row0, silent=True, finalize=False))
+                    out[which] = s.attrs[which]
+                holder.update(bay=bay, s=s, size=size, row0=row0, ys=ys, bb=bb, bf=bf, tf=tf)
+                return s, out
+            for path, out in it.explore(run):
+                name = '%s[%s]' % (B1 + 'calc_*', tag)
+                if out[0] != 'return':
+                    report(led, name + '/no-exception', B1 + 'calc_k0', ['raises %s%s' % (out[1].tname, tuple(str(x)[:80] for x in out[1].eargs))], signature='raise:' + out[1].tname)
+                    continue
+                s, mats = out[1]
+                bay, size, row0, ys, bb, bf, tf = (holder[k] for k in ('bay', 'size', 'row0', 'ys', 'bb', 'bf', 'tf'))
+                tsk = real('tskin')
+                h = (tsk * Fraction(1, 2) + tsk * Fraction(1, 2))
+                hb = real('tb') if with_base else P.const(0)
+                hf = sum(tf[1:], tf[0])
+                dbf = bf * Fraction(1, 2) + hb + h * Fraction(1, 2)
+                # beam constants as the flange laminate defines them
+                E1 = P({})
+                S1 = P({})
+                y = tf[0] * Fraction(1, 2)
+                for k in range(nply):
+                    if k > 0:
+                        y = y + tf[k - 1] * Fraction(1, 2) + tf[k] * Fraction(1, 2)
+                    q = lambda i, j, k=k: real('QL%d%d_f%d' % (min(i, j), max(i, j), k))
+                    E1 = E1 + tf[k] * (q(1, 1) - q(1, 2) * q(1, 2) / q(2, 2))
+                    S1 = S1 - y * tf[k] * (q(1, 3) - q(1, 2) * q(2, 3) / q(2, 2))
+                F1 = bf * bf * Fraction(1, 12) * E1
+                Jxx = hf * bf * bf * bf * Fraction(1, 12) + bf * hf * hf * hf * Fraction(1, 12)
+                flags = {f: bay.attrs[f] for f in FLAG_NAMES}
+                common = dict(ys=ys, a=bay.attrs['a'], b=bay.attrs['b'], bf=bf, m=bay.attrs['m'], n=bay.attrs['n'], size=size, row0=row0, col0=row0)
+                want = {
+                    'k0': ('fk0f', dict(common, df=dbf, E1=E1, F1=F1, S1=S1, Jxx=Jxx, **{f: v for f, v in flags.items() if f[0] in 'uw'})),
+                    'kG0': ('fkG0f', dict(common, Fx=real('Fx'), **{f: v for f, v in flags.items() if f[0] == 'w'})),
+                    'kM': ('fkMf', dict(common, mu=real('mu'), h=h, hb=hb, hf=hf, df=dbf, **flags)),
+                }
+                for which, (fn, args) in want.items():
+                    probs = []
+                    wrap, kern, scales = kernels_of(mats[which])
+                    byfn = {}
+                    for t in kern:
+                        byfn.setdefault(t.f['fn'], []).append(t)
+                    ts = byfn.get(fn, [])
+                    if len(ts) != 1:
+                        probs.append('%s called %d times' % (fn, len(ts)))
+                    else:
+                        probs += ['%s: %s' % (fn, d) for d in rational_arg_diffs(ts[0], args)]
+                    others = [k for k in byfn if k != fn]
+                    exp_others = {'k0': ['fk0y1y2'], 'kM': ['fkMy1y2'], 'kG0': []}[which] if with_base else []
+                    if sorted(others) != sorted(exp_others):
+                        probs.append('other contributions %s, expected %s' % (sorted(others), exp_others))
+                    for o in others:
+                        t = byfn[o][0]
+                        y1, y2 = ys - bb * Fraction(1, 2), ys + bb * Fraction(1, 2)
+                        probs += ['base %s: %s' % (o, d) for d in arg_diffs(t, dict(size=size, row0=row0, col0=row0, y1=y1, y2=y2))]
+                        pv = t.f['panel']
+                        for key, exp in (('panel.a', bay.attrs['a']), ('panel.b', bay.attrs['b']), ('panel.m', bay.attrs['m']), ('panel.n', bay.attrs['n'])):
+                            if key in pv and not peq(pv[key], exp):
+                                probs.append('base %s: %s = %s' % (o, key, pycheck.describe(pv[key])))
+                    if any(k != 1 for k in scales):
+                        probs.append('a contribution is scaled')
+                    report(led, '%s[%s]' % (B1 + 'calc_' + which, tag), B1 + 'calc_' + which, probs)
+                if with_base:
+                    # the base laminate sits below the skin: offset -(h/2 + hb/2)
+                    base = s.attrs['base']
+                    off = base.attrs.get('offset')
+                    probs = []
+                    if not peq(off, -(h * Fraction(1, 2) + hb * Fraction(1, 2))):
+                        probs.append('base offset %s, expected -(h/2 + hb/2)' % pycheck.describe(off))
+                    for f in FLAG_NAMES:
+                        if not peq(base.attrs[f], bay.attrs[f]):
+                            probs.append('base edge flag %s differs from the bay' % f)
+                    report(led, '%s[%s]/base-panel' % (B1 + '_rebuild', tag), B1 + '_rebuild', probs)
+                # ---- positive semi-definiteness of the weights (c13_stiffk proves kernel == Hessian of the functional)
+                # mass: mu hf [[I0, I1], [I1, I2]] over the flange height [z1, z1 + bf], z1 = h/2 + hb, with the first moment bf*df that
+                # calc_kM passes: I0 I2 - I1^2 == bf^4/12 (Cauchy-Schwarz with equality defect bf^4/12)
+                z1 = h * Fraction(1, 2) + hb
+                z2 = z1 + bf
+                I0, I1, I2 = bf, bf * dbf, (z2 * z2 * z2 - z1 * z1 * z1) * Fraction(1, 3)
+                nm = '%s[%s]/mass-weight-positive-semidefinite' % (B1 + 'calc_kM', tag)
+                if normal(I0 * I2 - I1 * I1 - bf * bf * bf * bf * Fraction(1, 12)).is_zero():
+                    led.ok(nm, B1 + 'calc_kM')
+                else:
+                    led.fail(nm, B1 + 'calc_kM', {'I0*I2 - I1^2': normal(I0 * I2 - I1 * I1).text()}, signature='mass-psd')
+                if with_base or nply > 2:
+                    continue
+                # requires: every ply stiffness is positive definite, thicknesses positive
+                facts = [to_z3(bf) > 0, to_z3(tsk) > 0]
+                for k in range(nply):
+                    q = lambda i, j, k=k: to_z3(real('QL%d%d_f%d' % (min(i, j), max(i, j), k)))
+                    facts += [to_z3(tf[k]) > 0, q(1, 1) > 0, q(2, 2) > 0, q(3, 3) > 0, q(1, 1) * q(2, 2) > q(1, 2) * q(1, 2),
+                              # determinant of the 3x3 positive
+                              q(1, 1) * (q(2, 2) * q(3, 3) - q(2, 3) * q(2, 3)) - q(1, 2) * (q(1, 2) * q(3, 3) - q(2, 3) * q(1, 3))
+                              + q(1, 3) * (q(1, 2) * q(2, 3) - q(2, 2) * q(1, 3)) > 0]
+                zE1, zS1, zJ, zF1 = (to_z3(normal(x)) for x in (E1, S1, Jxx, F1))
+                name = '%s[%s]/stiffness-weight-positive-semidefinite' % (B1 + 'calc_k0', tag)
+                for part, claim in (('E1>=0', zE1 >= 0), ('F1>=0', zF1 >= 0), ('Jxx>=0', zJ >= 0), ('E1*Jxx>=S1^2', zE1 * zJ >= zS1 * zS1)):
+                    sv = z3.Solver()
+                    sv.set('timeout', 20000)
+                    sv.add(*facts)
+                    sv.add(z3.Not(claim))
+                    import time
+                    t0 = time.time()
+                    r = sv.check()
+                    led.solver_time('z3', time.time() - t0)
+                    nm = '%s/%s' % (name, part)
+                    if r == z3.unsat:
+                        led.ok(nm, B1 + 'calc_k0', backend='z3')
+                    elif r == z3.sat:
+                        mdl = sv.model()
+                        led.fail(nm, B1 + 'calc_k0', {'model': {str(d): str(mdl[d]) for d in mdl.decls()},
+                                                      'meaning': 'the flange stiffness functional bf/2 Int[E1 e^2 - 2 S1 e t + Jxx t^2 + F1 k^2] is indefinite: '
+                                                                 'Jxx is a purely geometric torsion constant (no modulus) while S1 carries the ply stiffness'},
+                                 backend='z3', signature='psd:' + part, replay=replay_blade1d_psd())
+                    else:
+                        led.undecide(nm, B1 + 'calc_k0', 'z3 unknown')
+            led.solver_time('z3-feasibility', it.solver_time)
+
+
+def rational_arg_diffs(t, want):
+    from ..poly import rational_close
+    out = []
+    for k, w in want.items():
+        g = t.f['args'].get(k)
+        if g is None:
+            out.append('%s not passed' % k)
+            continue
+        g = g if isinstance(g, P) else P.const(g)
+        w = w if isinstance(w, P) else P.const(w)
+        if not rational_close(g, w)[0]:
+            out.append('%s = %s, expected %s' % (k, pycheck.describe(g), pycheck.describe(w)))
+    return out
+
+
+_B1R = {}
+
+
+def replay_blade1d_psd():
+    if 'r' in _B1R:
+        return _B1R['r']
+    from ..pyreplay import run_real
+    script = '''
+import numpy as np
+from compmech.stiffpanelbay import StiffPanelBay
+spb = StiffPanelBay()
+spb.a = 2.; spb.b = 1.; spb.m = 6; spb.n = 6; spb.model = 'plate_clt_donnell_bardell'
+spb.stack = [0, 90, 90, 0]; spb.plyt = 1.25e-4; spb.mu = 1.3e3
+spb.laminaprop = (142.5e9, 8.7e9, 0.28, 5.1e9, 5.1e9, 5.1e9)
+spb.add_panel(y1=0, y2=spb.b/2.); spb.add_panel(y1=spb.b/2., y2=spb.b)
+s = spb.add_bladestiff1d(ys=spb.b/2., Fx=0., bf=0.05, fstack=payload['fstack'], fplyt=spb.plyt, flaminaprop=spb.laminaprop)
+size = spb.get_size()
+s.calc_k0(size=size, row0=0, col0=0, silent=True)
+K = np.asarray(s.k0.todense()); w = np.linalg.eigvalsh((K + K.T)/2)
+out = dict(min_eig=float(w.min()), max_eig=float(w.max()), E1=float(s.E1), S1=float(s.S1), Jxx=float(s.Jxx), E1Jxx_minus_S1sq=float(s.E1*s.Jxx - s.S1**2))
+'''
+    pay = {'fstack': [45, 45, 45, 45]}
+    r = run_real(script, pay)
+    r['input'] = 'bay 2 x 1, skin [0,90,90,0], one 1-D blade stiffener with flange [45]*4, bf = 0.05: smallest eigenvalue of the stiffener k0'
+    r['reproduced'] = bool(r.get('min_eig', 0) < -1e-9 * abs(r.get('max_eig', 1)) and r.get('E1Jxx_minus_S1sq', 0) < 0)
+    r['real_function'] = 'BladeStiff1D.calc_k0'
+    _B1R['r'] = r
+    return r
+
+
+# ---------------------------------------------------------------------------------------------------------------- BladeStiff2D
+def check_bladestiff2d(led):
+    """BladeStiff2D: base on the skin's own amplitudes (block at 0), flange plate at (row0, col0), the three penalty blocks
+    skin-skin at (0, 0), skin-flange at (0, col0), flange-flange at (row0, col0), all with one pair of penalty constants."""
+    for meth in ('__init__', '_rebuild', 'calc_k0', 'calc_kG0', 'calc_kM'):
+        led.function(BF2 + meth)
+    for with_base in (False, True):
+        it, calls = py_panel.mk()
+        _with_plies(it)
+        mod = it.module('compmech.stiffener.bladestiff2d')
+        smod = it.module('compmech.stiffener.models.bladestiff2d_clt_donnell_bardell')
+        for fn, f in list(smod.g.items()):
+            if isinstance(f, pysym.Func) and fn.startswith('fkC'):
+                it.contracts[f.qualname] = panelctx.kernel_contract(it, f, calls)
+        it.algebraic_minmax = True
+        holder = {}
+        tag = 'with base' if with_base else 'no base'
+
+        def run():
+            del calls[:]
+            bay = make_bay(it)
+            ys = real('ys')
+            p1 = skin(it, bay, 'skin1', P.const(0), ys)
+            p2 = skin(it, bay, 'skin2', ys, bay.attrs['b'])
+            bb, bf = real('bb'), real('bf')
+            it.facts[:] = [to_z3(bay.attrs['a']) > 0, to_z3(bay.attrs['b']) > 0, to_z3(bay.attrs['a']) <= 10 * to_z3(bay.attrs['b']), to_z3(bb) > 0, to_z3(bf) > 0]
+            matb = tuple(real(x + 'b') for x in MAT)
+            matf = tuple(real(x + 'f') for x in MAT)
+            s = it.call(mod.g['BladeStiff2D'], [], dict(bay=bay, mu=real('mu'), panel1=p1, panel2=p2, ys=ys, bb=bb, bf=bf,
+                                                       bstack=[real('thb')] if with_base else None, bplyts=[real('tb')] if with_base else None,
+                                                       blaminaprops=[matb] if with_base else None,
+                                                       fstack=[real('thf')], fplyts=[real('tf')], flaminaprops=[matf],
+                                                       mf=integer('mf'), nf=integer('nf')))
+            size, row0 = integer('size'), integer('row0')
+            out = {}
+            for which in ('k0', 'kG0', 'kM'):
+                del calls[:]
+                it.call(it.getattr(s, 'calc_' + which), [], dict(size=size, row0=row0, col0=row0, silent=True, finalize=False))
+                out[which] = s.attrs[which]
+            kfun = it.module('compmech.panel.connections.penalty_constants').g['calc_kt_kr']
+            want_ktkr = it.call(kfun, [s.attrs['base'] if with_base else p1, s.attrs['flange'], 'ycte'], {})
+            holder.update(bay=bay, size=size, row0=row0, ys=ys, bb=bb, bf=bf, ktkr=want_ktkr)
+            return s, out
+        for path, out in it.explore(run):
+            name = '%s[%s]' % (BF2 + 'calc_*', tag)
+            if out[0] != 'return':
+                report(led, name + '/no-exception', BF2 + 'calc_k0', ['raises %s%s' % (out[1].tname, tuple(str(x)[:80] for x in out[1].eargs))], signature='raise:' + out[1].tname)
+                continue
+            s, mats = out[1]
+            bay, size, row0, ys, bb, bf, (kt, kr) = (holder[k] for k in ('bay', 'size', 'row0', 'ys', 'bb', 'bf', 'ktkr'))
+            base, flange = s.attrs['base'], s.attrs['flange']
+            y1, y2 = ys - bb * Fraction(1, 2), ys + bb * Fraction(1, 2)
+            fl = {k + 'f': flange.attrs[k] for k in FLAG_NAMES}
+            bayfl = {k: bay.attrs[k] for k in FLAG_NAMES}
+            geo = dict(a=bay.attrs['a'], b=bay.attrs['b'], m=bay.attrs['m'], n=bay.attrs['n'])
+            for which in ('k0', 'kG0', 'kM'):
+                probs = []
+                wrap, kern, scales = kernels_of(mats[which])
+                byfn = {}
+                for t in kern:
+                    byfn.setdefault(t.f['fn'], []).append(t)
+                pk = {'k0': 'fk0', 'kG0': 'fkG0', 'kM': 'fkM'}[which]
+                exp = [pk] + ([pk + 'y1y2'] if (with_base and which != 'kG0') else []) + (['fkCss', 'fkCsf', 'fkCff'] if which == 'k0' else [])
+                if sorted(byfn) != sorted(exp):
+                    probs.append('contributions %s, expected %s' % (sorted(byfn), sorted(exp)))
+                for fn, ts in byfn.items():
+                    if len(ts) != 1:
+                        probs.append('%s called %d times' % (fn, len(ts)))
+                        continue
+                    t = ts[0]
+                    if fn == pk:
+                        probs += ['flange %s: %s' % (fn, d) for d in arg_diffs(t, dict(size=size, row0=row0, col0=row0))]
+                        pv = t.f['panel']
+                        for key, e in (('panel.a', bay.attrs['a']), ('panel.b', bf), ('panel.m', integer('mf')), ('panel.n', integer('nf'))):
+                            if key in pv and not peq(pv[key], e):
+                                probs.append('flange %s: %s = %s' % (fn, key, pycheck.describe(pv[key])))
+                    elif fn == pk + 'y1y2':
+                        probs += ['base %s: %s' % (fn, d) for d in arg_diffs(t, dict(size=size, row0=0, col0=0, y1=y1, y2=y2))]
+                        pv = t.f['panel']
+                        for key, e in (('panel.a', bay.attrs['a']), ('panel.b', bay.attrs['b']), ('panel.m', bay.attrs['m']), ('panel.n', bay.attrs['n'])):
+                            if key in pv and not peq(pv[key], e):
+                                probs.append('base %s: %s = %s' % (fn, key, pycheck.describe(pv[key])))
+                    elif fn == 'fkCss':
+                        probs += ['fkCss: ' + d for d in arg_diffs(t, dict(geo, ys=ys, size=size, row0=0, col0=0, **bayfl))]
+                    elif fn == 'fkCsf':
+                        probs += ['fkCsf: ' + d for d in arg_diffs(t, dict(geo, ys=ys, bf=bf, m1=integer('mf'), n1=integer('nf'), size=size, row0=0, col0=row0, **dict(bayfl, **fl)))]
+                    elif fn == 'fkCff':
+                        probs += ['fkCff: ' + d for d in arg_diffs(t, dict(a=bay.attrs['a'], bf=bf, m1=integer('mf'), n1=integer('nf'), size=size, row0=row0, col0=row0, **fl))]
+                    if fn.startswith('fkC'):
+                        from ..poly import rational_close
+                        for nm, w in (('kt', kt), ('kr', kr)):
+                            g = t.f['args'].get(nm)
+                            if g is None or not rational_close(g if isinstance(g, P) else P.const(g), w)[0]:
+                                probs.append('%s: %s is not calc_kt_kr(%s, flange, ycte)' % (fn, nm, 'base' if with_base else 'panel1'))
+                if any(k != 1 for k in scales):
+                    probs.append('a contribution is scaled')
+                report(led, '%s[%s]' % (BF2 + 'calc_' + which, tag), BF2 + 'calc_' + which, probs)
+            probs = []
+            if with_base:
+                tsk, tb = real('tskin'), real('tb')
+                h = tsk * Fraction(1, 2) + tsk * Fraction(1, 2)
+                if not peq(base.attrs.get('offset'), -(h * Fraction(1, 2) + tb * Fraction(1, 2))):
+                    probs.append('base offset %s, expected -(h/2 + hb/2)' % pycheck.describe(base.attrs.get('offset')))
+                for f in FLAG_NAMES:
+                    if not peq(base.attrs[f], bay.attrs[f]):
+                        probs.append('base edge flag %s differs from the bay' % f)
+            # the flange is attached along its edge eta = -1 (the kernels evaluate its functions there): its displacement must be free there
+            for f in ('u1ty', 'v1ty', 'w1ty', 'w1ry'):
+                if not peq(flange.attrs[f], 1):
+                    probs.append('flange flag %s = %s: the attached edge must be free for the penalty to act' % (f, pycheck.describe(flange.attrs[f])))
+            report(led, '%s[%s]/panels' % (BF2 + '__init__', tag), BF2 + '__init__', probs)
+        led.solver_time('z3-feasibility', it.solver_time)
